@@ -291,7 +291,7 @@ mod cdn {
 
     pub struct Row {
         pub resp: Vec<Value>,
-        /// (arrival, response fully written) per request, in arrival order
+        /// (arrival, instant just before the response was written) per request, in arrival order
         pub log: Vec<(Instant, Instant)>,
     }
     type Rows = Arc<Mutex<HashMap<String, Row>>>;
@@ -333,9 +333,11 @@ mod cdn {
         resp.push_str("\r\n");
         let mut bytes = resp.into_bytes();
         bytes.extend_from_slice(&body);
+        // taken BEFORE the bytes leave: the client cannot have the answer earlier than this instant, so
+        // "next arrival - sent" is never shorter than the time the client waited between the two
+        let sent = Instant::now();
         let _ = sock.write_all(&bytes).await;
         let _ = sock.flush().await;
-        let sent = Instant::now();
         if let Some(r) = rows.lock().unwrap().get_mut(&hex_key) {
             r.log.push((arrival, sent));
         }
